@@ -81,6 +81,15 @@ def run(ctx):
                     nodes.append(ast.BinOp(ast.Add(), e, ast.Duration("PT1H")))
     for a in terms:
         nodes.append(ast.UnaryOp(ast.USub(), a)); nodes.append(ast.UnaryOp(ast.Not(), a))
+    # literals at the extremes of their SPELLING (the kind of a literal is the kind of its node, however long or oddly signed its text is), alone and as arguments
+    extreme = [ast.Integer(v) for v in ("-9223372036854775808", "+1000000000000000000", "00000000000000000042", "123456789012345678901234567890", "9" * 60, "-0", "+0")] + \
+              [ast.Float(v) for v in ("1e400", "-1.5E-400", "0." + "0" * 40 + "1", "1" * 30 + ".5", "+.5e+5" if False else "5e5")] + \
+              [ast.String(v) for v in ("", "1", "true", "null", "2020-01-01", "x" * 300)] + [ast.Boolean(v) for v in ("TRUE", "False", "tRuE")] + \
+              [ast.Duration(v) for v in ("P", "-P1Y", "+PT0.000001S", "P" + "9" * 30 + "D")] + [ast.Date("0001-01-01"), ast.DateTime("9999-12-31T23:59:59.999999999999+23:59"), ast.Time("00:00:00.000000000001"),
+               ast.GUID("00000000-0000-0000-0000-000000000000"), ast.GUID("FFFFFFFF-FFFF-FFFF-FFFF-FFFFFFFFFFFF")]
+    for x in extreme:
+        nodes += [x, gens_typed.call("concat", x, x), gens_typed.call("substring", ast.String("abc"), x), gens_typed.call("round", x), gens_typed.call("year", x), gens_typed.call("length", x),
+                  ast.Compare(ast.Eq(), gens_typed.call("year", ast.Identifier("d1")), x), ast.List([x])]
     # nest: every generated term as first/second argument of concat / substring (argument-derived types)
     for nd in list(nodes[: 400]):
         nodes.append(gens_typed.call("concat", nd, ast.Identifier("s1")))
@@ -109,11 +118,14 @@ def run(ctx):
     def judge_literals():
         found = []
         # second consequence: a LITERAL of a kind outside the allowed set is rejected
-        kinds = {"Integer": ast.Integer("5"), "Float": ast.Float("2.5"), "String": ast.String("ab"), "Boolean": ast.Boolean("true"), "Date": ast.Date("2020-01-01"),
+        kinds = {"Integer:long": ast.Integer("-9223372036854775808"), "Integer:zeros": ast.Integer("00000000000000000042"), "Integer:huge": ast.Integer("9" * 40), "Float:big": ast.Float("1e400"),
+                 "String:date-like": ast.String("2020-01-01"), "Boolean:upper": ast.Boolean("TRUE"), "Duration": ast.Duration("P" + "9" * 30 + "D"),
+                 "Integer": ast.Integer("5"), "Float": ast.Float("2.5"), "String": ast.String("ab"), "Boolean": ast.Boolean("true"), "Date": ast.Date("2020-01-01"),
                  "DateTime": ast.DateTime("2020-01-01T10:00:00Z"), "List": ast.List([ast.Integer("1")]), "Time": ast.Time("12:00:00"), "GUID": ast.GUID("01234567-89ab-cdef-0123-456789abcdef")}
         for kname, lit in kinds.items():
             for al in ALLOWED_SETS:
                 got = real_typecheck(lit, al)
+                kname = kname.split(":")[0]
                 if kname in al and got != "ok unit":
                     found.append({"property": "C18", "input": repr(lit), "allowed": al, "why": "typecheck rejects a literal of an allowed kind", "signature": "C18:typecheck-literal:" + kname})
                 if kname not in al and not got.startswith("lib ArgumentTypeException"):
